@@ -69,6 +69,10 @@ SUMMARY = {
 'c08w':'non-match chunks offered with a single write(); if exactly one byte stays unwritten it is handed back to the chunk iterator - lost when that chunk was the final one',
 'c17w':'AhoCorasick keeps a shared, lazily created roll buffer for stream replacement behind a Mutex, cleared after the search and recovered from poisoning with into_inner(): a panic unwinding through one stream replace leaves stale bytes for the next',
 'c18w':'table variant wraps the writer in a BufWriter and never flushes: a failure of the final (drop-time) write is discarded and Ok(()) returned',
+'c07x':'fill() uses read_vectored with a lookahead slice and forgets that bytes moved in from the lookahead count as read: only readers that override read_vectored (slices, files) can show it',
+'c08x':'table variant writes gap + replacement with one write_vectored call and assumes the whole replacement is still owed after a short write: only writers that override write_vectored and stop inside the second slice show it',
+'c17x':'finished stream searches park their roll buffer in a thread_local tagged with the automaton ADDRESS; a different searcher later living at that address inherits the old roll size',
+'c18x':'Interrupted after a partial fill is swallowed (fill returns Ok(true))',
 'c18a':'fill returns Ok(true) instead of the error when it had already buffered bytes in the same call: one-shot read errors during the initial fill vanish',
 'c18b':'closure errors of kind Interrupted are retried by calling the closure again: error swallowed, partial output duplicated',
 'c18c':'fill commits its new end only after the loop: an error on a later read of one fill discards bytes accepted earlier; polling on shifts all later offsets',
@@ -86,6 +90,8 @@ for line in sorted(open(os.path.join(ROOT, 'mutants/RESULTS-seeded.txt'))):
     m = re.search(r'\| (C\d\d) exit=(\d) class=(\S+) replay_exit=(\S+)', line)
     if not m: continue
     engine = {'C07': 'streamsim', 'C08': 'streamsim', 'C18': 'streamsim fault enumeration', 'C17': 'threadsim'}[m.group(1)]
+    if name in ('c07x', 'c08x'):
+        engine = 'streamsim (after giving the simulated reader/writer read_vectored / write_vectored overrides; invisible by construction before: std\'s default vectored methods only use the first slice)'
     if name == 'c07t':
         engine = 'streamsim production-capacity class (after adding 128 KiB - 2 MiB patterns; first missed)'
     if name == 'c18t':
